@@ -31,6 +31,16 @@ func inputBuffer(c *CaseBytes) *bytes.Buffer {
 }
 
 func oracleC09(c *CaseBytes) *Failure {
+	// the prelude's decodes hand (possibly hostile) bytes to the library too: each is judged as an input in its own right
+	for _, op := range c.Pre {
+		if op.Kind == "dec" && regByName[op.Type] != nil {
+			if f := oracleC09(&CaseBytes{Type: op.Type, W: op.W}); f != nil {
+				return f
+			}
+		}
+	}
+	// armed before the prelude runs for real (its other calls belong to the case as well)
+	armCase("C09", "c09", c.Type, "C09/"+c.Type+"/abort-or-hang", c)
 	defer runPrelude(c.Pre)()
 	obj := regByName[c.Type].New()
 	buf := inputBuffer(c)
@@ -47,6 +57,14 @@ func oracleC09(c *CaseBytes) *Failure {
 var memA, memB runtime.MemStats
 
 func oracleC10(c *CaseBytes) *Failure {
+	for _, op := range c.Pre {
+		if op.Kind == "dec" && regByName[op.Type] != nil {
+			if f := oracleC10(&CaseBytes{Type: op.Type, W: op.W}); f != nil {
+				return f
+			}
+		}
+	}
+	armCase("C10", "c10", c.Type, "C10/"+c.Type+"/abort-or-hang", c)
 	defer runPrelude(c.Pre)()
 	obj := regByName[c.Type].New()
 	buf := inputBuffer(c)
